@@ -158,7 +158,11 @@ def timeout(duration, func, *args, **kwargs):
             # The very exception the thread ended with (building a new one from the old one's
             # class fails for constructors that need more than one argument)
             e = ei[1]
-            e.exc_info = target_thread.exc_info
+            try:
+                e.exc_info = target_thread.exc_info
+            except Exception:
+                # The student's exception class may forbid attributes (__setattr__, __slots__)
+                pass
             raise e.with_traceback(ei[2])
         return target_thread.result
 
